@@ -634,3 +634,81 @@ def register(ex):
     ex.probe("rfCallbackBeforeSuper", "Bool", "true",
              "rl/reinforce/reinforce.py:REINFORCE.on_train_epoch_end  `self.baseline.epoch_callback(…)` before `super().on_train_epoch_end()`",
              rf_callback_before_super)
+
+    # ------------------------------------------------------------- round 6: the zoo's own replication sites / rollout functions
+    def replication(rel, qual, target):
+        """the multi-start replication of `target` inside `qual` goes through `batchify(x, <n>)` (start-major: copy j of
+        instance b at row j·B+b) (true) / through an instance-major form — `repeat_interleave`, `repeat`, `expand`+`reshape` — (false)"""
+        def run():
+            fn = _fn(rel, qual)
+            if fn is None:
+                return None
+            rhs = []
+            for n in ast.walk(fn):
+                if isinstance(n, ast.Assign) and len(n.targets) == 1 and _u(n.targets[0]) == target:
+                    rhs.append(n.value)
+                if isinstance(n, ast.Return) and n.value is not None and target == "<return>":
+                    rhs.append(n.value)
+            verdicts = []
+            for v in rhs:
+                calls = [c for c in ast.walk(v) if isinstance(c, ast.Call)]
+                if any(_u(c.func) == "batchify" and len(c.args) == 2 for c in calls):
+                    verdicts.append(True)
+                elif any(isinstance(c.func, ast.Attribute) and c.func.attr in ("repeat_interleave", "repeat", "expand", "tile") for c in calls) \
+                        or any(_u(c.func) in ("torch.repeat_interleave", "torch.tile") for c in calls):
+                    verdicts.append(False)
+            if not verdicts:
+                return None
+            return "true" if all(verdicts) else "false"
+        return run
+
+    def eval_mode(rel, qual, argpos):
+        """the rollout function puts the policy it is given into eval mode (`<policy>.eval()` as a statement of its body)
+        (true) / evaluates and concatenates over a loader without doing so (false)"""
+        def run():
+            fn = _fn(rel, qual)
+            if fn is None:
+                return None
+            args = [a.arg for a in fn.args.args]
+            if len(args) <= argpos:
+                return None
+            pol = args[argpos]
+            for st in _body(fn):
+                if isinstance(st, ast.Expr) and isinstance(st.value, ast.Call) and _u(st.value.func) == f"{pol}.eval" and not st.value.args:
+                    return "true"
+                if isinstance(st, ast.Assign) and isinstance(st.value, ast.Call) and _u(st.value.func) == f"{pol}.eval":
+                    return "true"
+            has_loader = any(isinstance(c, ast.Call) and _u(c.func) == "DataLoader" for c in ast.walk(fn))
+            return "false" if has_loader else None
+        return run
+
+    def mdam_concat():
+        fn = _fn("rl4co/models/zoo/mdam/model.py", "rollout")
+        if fn is None:
+            return None
+        for n in ast.walk(fn):
+            if isinstance(n, ast.Call) and _u(n.func) == "torch.cat" and n.args and isinstance(n.args[0], ast.ListComp):
+                lc = n.args[0]
+                ok = (len(lc.generators) == 1 and _u(lc.generators[0].iter) == "dl" and not lc.generators[0].ifs
+                      and len(n.args) == 2 and _u(n.args[1]) == "0")
+                calls = [c for c in ast.walk(fn) if isinstance(c, ast.Call) and _u(c.func) == "DataLoader"]
+                plain = len(calls) == 1 and {k.arg for k in calls[0].keywords} == {"batch_size", "collate_fn"}
+                return "true" if ok and plain else "false"
+        return None
+
+    ex.probe("l2dHiddenUsesBatchify", "Bool", "true",
+             "zoo/l2d/decoder.py:L2DActor.pre_decoder_hook  `hidden = tuple(map(lambda x: batchify(x, num_starts), hidden))`",
+             replication("rl4co/models/zoo/l2d/decoder.py", "L2DActor.pre_decoder_hook", "hidden"))
+    ex.probe("narIndexUsesBatchify", "Bool", "true",
+             "constructive/nonautoregressive/decoder.py:_multistart_batched_index  `return batchify(arr, num_starts)`",
+             replication("rl4co/models/common/constructive/nonautoregressive/decoder.py", "_multistart_batched_index", "<return>"))
+    ex.probe("matnetTdUsesBatchify", "Bool", "true", "zoo/matnet/policy.py:MultiStageFFSPPolicy.pre_forward  `td = batchify(td, num_starts)`",
+             replication("rl4co/models/zoo/matnet/policy.py", "pre_forward", "td"))
+    ex.probe("easTdUsesBatchify", "Bool", "true", "zoo/eas/decoder.py:forward_eas  `td = batchify(td, num_starts + 1)`",
+             replication("rl4co/models/zoo/eas/decoder.py", "forward_eas", "td"))
+    ex.probe("blRolloutEvalMode", "Bool", "true", "reinforce/baselines.py:RolloutBaseline.rollout  `policy.eval()`",
+             eval_mode(BL, "RolloutBaseline.rollout", 1))
+    ex.probe("mdamRolloutEvalMode", "Bool", "true", "zoo/mdam/model.py:rollout  `model.eval()`",
+             eval_mode("rl4co/models/zoo/mdam/model.py", "rollout", 1))
+    ex.probe("mdamRolloutPlainConcat", "Bool", "true",
+             "zoo/mdam/model.py:rollout  `DataLoader(dataset, batch_size=…, collate_fn=…)`, `torch.cat([eval_model(batch) for batch in dl], 0)`", mdam_concat)
